@@ -153,9 +153,12 @@ class C05(Check):
         if want == "i64":
             ok = z3.is_bv(leaf) and leaf.size() == 64
             if m.require("integer-stays-integer", f"{name}", ok):
-                sv = z3.BV2Int(lit, False)
-                expect = z3.If(neg, -sv, sv) if is_sym(neg) else sv
-                m.require("signed-value", f"{name}:{sign}", z3.BV2Int(leaf, True) == expect)
+                # signed(leaf) == s * unsigned(lit) over the integers, in pure bit-vector terms:
+                #   no sign / plus : leaf == lit and lit < 2^63          minus : leaf == -lit and lit <= 2^63
+                top = z3.BitVecVal(1 << 63, 64)
+                pos = z3.And(leaf == lit, z3.ULT(lit, top))
+                ngt = z3.And(leaf == -lit, z3.ULE(lit, top))
+                m.require("signed-value", f"{name}:{sign}", z3.If(neg, ngt, pos) if is_sym(neg) else pos)
         elif want == "u64":
             ok = z3.is_bv(leaf) and leaf.size() == 64
             if m.require("integer-stays-integer", f"{name}", ok):
